@@ -20,6 +20,14 @@ def padcode(p):
         return []
     if p == "short":
         return ["  x = a + 1;"]
+    if p == "contdef":       # a #define continued over three physical lines, then used
+        return ["#define C18M(v) \\", "    ((v) + \\", "     1)", "  x = C18M(a);"]
+    if p == "mlcall":        # a macro invocation and a plain expression spread over several lines
+        return ["#define C18N(p, q) ((p) + (q))", "  x = C18N(a,", "      a", "      );", "  x = a +", "      a;"]
+    if p == "mlcomment":     # a block comment over three lines with code behind it; a line comment inside an expression
+        return ["  /* a comment", "     over three", "     lines */ x = a;", "  x = \"s\" + // trailing", "      \"t\";"]
+    if p == "ifdef":         # skipped conditional blocks
+        return ["#if 0", "  x = nothing here;", "  more nothing", "#else", "  x = a;", "#endif", "#ifdef NO_SUCH_C18", "  junk", "#endif"]
     one = "  x = " + " + ".join(["a"] * 150) + ";"       # about 300 code bytes: more than one 255-byte run
     return [one] if p == "long" else [one, one, one]
 
@@ -151,7 +159,7 @@ def run(tier, work):
         head = [it for it in items if it["line"] > 30000]
         rest = [it for it in items if it["line"] <= 30000]
         rnd.shuffle(rest)
-        items = rest[:260] + head
+        items = rest[:400] + head
     conf, root = work.mudlib()
     lay = [make_layout(root, i, it) for i, it in enumerate(items)]
     scen = []
